@@ -30,6 +30,7 @@ package main
 import (
 	"bytes"
 	"fmt"
+	"sort"
 	"strconv"
 	"strings"
 
@@ -38,9 +39,9 @@ import (
 
 const (
 	findF2   = "C11-F2-equal-content-shares-node"
-	findC13  = "C13-rollback-deletes-recreated-checkpoint-node"
 	findC10W = "C10-forged-child-weights"
 	findC10K = "C10-node-kind-confusion"
+	findGcD  = "C11-gc-with-uncommitted-changes"
 )
 
 type wcheckpoint struct {
@@ -77,6 +78,7 @@ type wrun struct {
 	muts      int
 	commits   int
 
+	f2seen       bool // two live keys carried byte-equal (value, weight) at some time
 	cp           *wcheckpoint
 	lastPuts     map[string]bool // keys written by the most recent commit batch since the checkpoint
 	durable      []wdurable
@@ -107,6 +109,9 @@ func (x *wrun) fail(i int, f string, a ...interface{}) {
 // failIn records an oracle failure; cover is the finding whose matcher accepts it ("" = none).
 func (x *wrun) failIn(cover string, i int, f string, a ...interface{}) {
 	msg := fmt.Sprintf("op %d (%s): ", i, clip(x.ops[i], 120)) + fmt.Sprintf(f, a...)
+	if cover == findGcD && x.f2seen {
+		cover = findF2 // both conditions hold: attribute to the older finding
+	}
 	if cover != "" {
 		msg = "[" + cover + "] " + msg
 		if x.res.Finding == "" {
@@ -134,9 +139,12 @@ func (x *wrun) newEntries(from int) []logEntry {
 }
 
 func (x *wrun) noteContent() {
-	if x.cover == "" && x.live.hasEqualPair() {
-		x.cover = findF2
+	if !x.f2seen && x.live.hasEqualPair() {
+		x.f2seen = true
 		x.tags["finding:F2-condition"] = true
+		if x.cover == "" {
+			x.cover = findF2
+		}
 	}
 }
 
@@ -294,7 +302,11 @@ func (x *wrun) step(i int, f []string) string {
 		x.tags["gc"] = true
 		if x.dirty {
 			x.tags["gc-while-dirty"] = true
+			if x.cover == "" {
+				x.cover = findGcD // a GC pass while changes are uncommitted
+			}
 		}
+
 		for _, m := range checkReopen("after the GC pass", x.st, x.croot, x.cweight, x.committed) {
 			x.fail(i, "%s", m)
 		}
@@ -506,14 +518,11 @@ func (x *wrun) opProof(i int, b uint64, slot int) string {
 func (x *wrun) opRollback(i int, kind string) string {
 	cp := x.cp
 	from := x.st.logLen()
-	// matcher of the C13 finding: the commit being rolled back wrote a node whose hash belongs to the checkpoint
 	cover := x.cover
 	for k := range x.lastPuts {
 		if cp.nodes[k] {
-			if cover == "" {
-				cover = findC13
-			}
-			x.tags["finding:C13-condition"] = true
+			// the commit being rolled back re-wrote a node whose hash belongs to the checkpoint (the defect fixed by b5c797f)
+			x.tags["rolled-back-commit-rewrote-checkpoint-node"] = true
 			break
 		}
 	}
@@ -540,11 +549,15 @@ func (x *wrun) opRollback(i int, kind string) string {
 		x.failIn(cover, i, "checkpoint not intact: %s", m)
 	}
 	now := x.st.keys()
+	var left []string
 	for k := range x.lastPuts {
 		if !cp.keysThen[k] && now[k] {
-			x.failIn(cover, i, "node %x was created by the rolled-back commit only and is still in storage", k)
-			break
+			left = append(left, k)
 		}
+	}
+	if len(left) > 0 {
+		sort.Strings(left)
+		x.failIn(cover, i, "%d node(s) created by the rolled-back commit only are still in storage, e.g. %x", len(left), left[0])
 	}
 	if cover != "" && x.cover == "" && len(x.res.Fails) > 0 {
 		x.cover = cover // the storage is damaged from here on
